@@ -38,6 +38,12 @@ REPO = os.environ.get('VERIF_REPO', '/repo')
 # trait-level contracts to them); the extracted text is renamed to same-shaped shim traits.
 RULES = {
     'autofor': [],
+    # R-strslice: slicing a string VARIABLE by a range is the call of a shim whose precondition is std's panic condition
+    'strslice': [
+        (r'&(\w+)\[([^\[\]]+?)\.\.([^\[\].][^\[\]]*?)\]', r'\1.vx_slice(\2, \3)'),
+        (r'&(\w+)\[([^\[\]]+?)\.\.\]', r'\1.vx_slice_from(\2)'),
+        (r'&(\w+)\[\.\.([^\[\]]+?)\]', r'\1.vx_slice_to(\2)'),
+    ],
     'conv': [
         (r'\.try_into\(\)', '.vtry_into()'),
         (r'\.into\(\)', '.vinto()'),
